@@ -21,7 +21,7 @@ pub fn any_list4() -> (List<u64>, [u64; 4], usize) {
 }
 
 // @obl props=C05,C06,C18,C19 tier=quick kind=harness-contract mem=4 est=60
-// @bounded lists of length <= 4 (the list is an unbounded heap structure; above this leaf the history is an uninterpreted oracle, so no other obligation depends on the length)
+// @bounded lists of length <= 4. Since the Verus unit `list` (verus_list) proves new/append/head/tail/len/is_empty/clone against the Seq view for lists of EVERY length, this obligation is the bounded stand-in only for List::iter / Iter::next (a closure that captures `&mut self.next`: outside Verus) and the concrete-input companion of verus_list; above this leaf the history is an uninterpreted oracle, so no other obligation depends on the length
 // @fns List::new List::append List::head List::tail List::len List::is_empty List::iter List::clone Iter::next
 // @clause for lists of length n <= 4 built by append: len == n, is_empty <=> n == 0, head == last appended, tail == the list before the last append (same elements, same len), iteration yields the elements newest-first exactly once each, clone is observationally equal, the original list is unchanged by append (persistence)
 #[kani::proof]
